@@ -8,6 +8,8 @@ package main
 // command.
 
 import (
+	"errors"
+	"fmt"
 	"hash"
 	"io"
 	"os"
@@ -21,13 +23,13 @@ var vQueue []gts.Sequence
 var vQPos int
 var vOut []gts.Sequence
 
-//verif:model github.com/go-gts/gts/seqio.NewAutoScanner
+//verif:model github.com/go-gts/gts/seqio.NewAutoScanner group=scan
 func vm_NewAutoScanner(r io.Reader) *seqio.Scanner {
 	vQPos = 0
 	return new(seqio.Scanner)
 }
 
-//verif:model (*github.com/go-gts/gts/seqio.Scanner).Scan
+//verif:model (*github.com/go-gts/gts/seqio.Scanner).Scan group=scan
 func vm_Scan(s *seqio.Scanner) bool {
 	if vQPos < len(vQueue) {
 		vQPos++
@@ -36,11 +38,19 @@ func vm_Scan(s *seqio.Scanner) bool {
 	return false
 }
 
-//verif:model (github.com/go-gts/gts/seqio.Scanner).Value
+//verif:model (github.com/go-gts/gts/seqio.Scanner).Value group=scan
 func vm_Value(s seqio.Scanner) gts.Sequence { return vQueue[vQPos-1] }
 
-//verif:model (github.com/go-gts/gts/seqio.Scanner).Err
-func vm_Err(s seqio.Scanner) error { return nil }
+//verif:model (github.com/go-gts/gts/seqio.Scanner).Err group=scan
+func vm_Err(s seqio.Scanner) error {
+	if vScanFail && vQPos >= len(vQueue) {
+		return errScanModel
+	}
+	return nil
+}
+
+var vScanFail bool
+var errScanModel = errors.New("model scanner: malformed record")
 
 type vCapture struct{}
 
@@ -54,10 +64,10 @@ func (vCapture) WriteSeq(seq gts.Sequence) (int, error) {
 	return 1, nil
 }
 
-//verif:model github.com/go-gts/gts/seqio.NewWriter
+//verif:model github.com/go-gts/gts/seqio.NewWriter group=capture
 func vm_NewWriter(w io.Writer, ft seqio.FileType) seqio.SeqWriter { return vCapture{} }
 
-//verif:model github.com/go-gts/gts/cmd.IsTerminal
+//verif:model github.com/go-gts/gts/cmd.IsTerminal group=term
 func vm_IsTerminal(fd uintptr) bool { return false }
 
 // vHashM: model hash (digest = uninterpreted function of the input, natively SHA-1).
@@ -68,13 +78,30 @@ func (h *vHashM) Write(p []byte) (int, error) {
 	return len(p), nil
 }
 func (h *vHashM) Sum(b []byte) []byte {
-	return append(append([]byte{}, b...), vDigest(h.buf, 0), vDigest(h.buf, 1))
+	d0, d1 := vDigest(h.buf, 0), vDigest(h.buf, 1)
+	if vIsModel() {
+		// collision-freeness between every pair of inputs hashed on this path (DESIGN §2.5)
+		cur := append([]byte{}, h.buf...)
+		for _, prev := range vHashed {
+			same := len(prev) == len(cur)
+			if same {
+				for i := range cur {
+					same = vAnd(same, prev[i] == cur[i])
+				}
+			}
+			vAssume(vImplies(!same, !vAnd(vDigest(prev, 0) == d0, vDigest(prev, 1) == d1)))
+		}
+		vHashed = append(vHashed, cur)
+	}
+	return append(append([]byte{}, b...), d0, d1)
 }
+
+var vHashed [][]byte
 func (h *vHashM) Reset()         { h.buf = nil }
 func (h *vHashM) Size() int      { return 2 }
 func (h *vHashM) BlockSize() int { return 1 }
 
-//verif:model github.com/go-gts/gts/cmd/gts.newHash
+//verif:model github.com/go-gts/gts/cmd/gts.newHash group=hash
 func vm_newHash() hash.Hash { return &vHashM{} }
 
 // vRunCmd runs one command function on the given records and returns what it emitted.
@@ -229,4 +256,67 @@ func vGeneByName(ff []gts.Feature, name string) (gts.Feature, bool) {
 		}
 	}
 	return gts.Feature{}, false
+}
+
+// ---- cache-aware driver (C14) ---------------------------------------------------------
+
+var vPayloads [][]byte
+
+// injective structural encoding of the payload (json.Marshal is not interpreted)
+//
+//verif:model github.com/go-gts/gts/cmd/gts.encodePayload group=payload
+func vm_encodePayload(tt []tuple) []byte {
+	s := ""
+	for _, t := range tt {
+		s += fmt.Sprintf("%v=%v;", t[0], t[1])
+	}
+	p := []byte(s)
+	vPayloads = append(vPayloads, p)
+	return p
+}
+
+// vRunCached: one invocation of a command in a "fresh process" sharing the cache directory.
+// recs are the records on stdin; fail makes the input malformed after them.
+func vRunCached(name string, fn flags.Function, args []string, recs []gts.Sequence, stdin []byte, fail bool, home string) ([]byte, bool) {
+	ctx := &flags.Context{Name: []string{"gts", name}, Args: args}
+	if vIsModel() {
+		vResetStdio(stdin)
+		vQueue, vQPos, vOut, vScanFail = recs, 0, nil, fail
+		err := fn(ctx)
+		closeCaches(err == nil) // what main() does after the command returns
+		out, _ := vFSRead("/dev/stdout")
+		return out, err == nil
+	}
+	dir := vTempDir()
+	fin, err := os.Create(dir + "/in.gb")
+	if err != nil {
+		panic(err)
+	}
+	w := seqio.NewWriter(fin, seqio.GenBankFile)
+	for _, s := range recs {
+		if _, err := w.WriteSeq(s); err != nil {
+			panic(err)
+		}
+	}
+	if fail {
+		fin.WriteString("LOCUS       broken\n")
+	}
+	fin.Seek(0, io.SeekStart)
+	fout, err := os.Create(dir + "/out.gb")
+	if err != nil {
+		panic(err)
+	}
+	os.Setenv("XDG_CACHE_HOME", home)
+	cerr := func() error {
+		oldIn, oldOut := os.Stdin, os.Stdout
+		defer func() { os.Stdin, os.Stdout = oldIn, oldOut }()
+		os.Stdin, os.Stdout = fin, fout
+		err := fn(ctx)
+		closeCaches(err == nil) // what main() does after the command returns
+		return err
+	}()
+	fin.Close()
+	fout.Close()
+	out, _ := os.ReadFile(dir + "/out.gb")
+	return out, cerr == nil
 }
